@@ -36,18 +36,38 @@ def handleC03 : List String → String
     | [] => "complete"
     | ms => "missing " ++ ",".intercalate ms)
   | ["call", _kind, params, args, _truth] =>
-    let ps : List (String × String) := (params.splitOn ";").map fun p => match p.splitOn ":" with
-      | [n, t] => (n, t)
+    let plist := (params.splitOn ";").map fun p => p.splitOn ":"
+    let ps : List (String × String) := plist.map fun p => match p with
+      | n :: t :: _ => (n, t)
       | _ => ("?", "?")
-    let as : List CArg := (args.splitOn ";").map fun a => match a.splitOn "=" with
+    let defaults : List String := plist.filterMap fun p => match p with
+      | [n, _, "d"] => some n
+      | _ => none
+    let as : List CArg := if args == "-" then [] else (args.splitOn ";").map fun a => match a.splitOn "=" with
       | [n, t] => ⟨some n, t⟩
       | _ => ⟨none, a⟩
     -- `types_compatible` on the generated type names is equality; Box adopts Shape, Sq extends Box
     let ok (a e : String) : Bool := a == e || (e == "Shape" && (a == "Box" || a == "Sq"))
-    let flagged := validateArgs ok as ps 0
-    (match (List.range as.length).filter (fun i => flagged.contains i) with
-    | [] => "accepted"
-    | l => "flag " ++ ",".intercalate (l.map toString))
+    let flagged := validateArgs ok as ps 0 ++ surplusArgs as ps
+    let missing := missingParams as defaults ps (positionalCount as)
+    let fl := (List.range as.length).filter (fun i => flagged.contains i)
+    if fl.isEmpty && missing.isEmpty then "accepted"
+    else s!"flag {if fl.isEmpty then "-" else ",".intercalate (fl.map toString)} missing {if missing.isEmpty then "-" else ",".intercalate missing}"
+  | ["adopt", _kind, requires, tmethods, fields, ameths, _truth] =>
+    let pairs (x : String) : List (String × String) := if x == "-" then [] else (x.splitOn ",").map fun e =>
+      match e.splitOn ":" with
+      | [a, b] => (a, b)
+      | _ => (e, "")
+    let tms : List (String × Bool × String) := (tmethods.splitOn ",").map fun e => match e.splitOn ":" with
+      | [m, k, sg] => (m, k == "d", sg)
+      | _ => (e, true, "")
+    let errs := conformance (· == ·) (· == ·) ⟨pairs requires, tms⟩ ⟨pairs fields, pairs ameths⟩
+    let tags := errs.map fun e => match e with
+      | .missingField f => s!"mf:{f}"
+      | .fieldType f => s!"ft:{f}"
+      | .missingMethod m => s!"mm:{m}"
+      | .methodSig m => s!"ms:{m}"
+    if tags.isEmpty then "accepted" else ",".intercalate (tags.toArray.qsort (· < ·)).toList
   | _ => "bad-op"
 
 end Incan.Driver
